@@ -133,6 +133,14 @@ Router::~Router()
         delete obstaclePtr;
         obstacle = m_obstacles.begin();
     }
+
+    // Delete remaining clusters.
+    while (!clusterRefs.empty())
+    {
+        ClusterRef *cluster = clusterRefs.front();
+        cluster->makeInactive();
+        delete cluster;
+    }
     m_currently_calling_destructors = false;
 
     // Cleanup orphaned orthogonal graph vertices.
@@ -850,6 +858,12 @@ void Router::deleteCluster(ClusterRef *cluster)
     unsigned int pid = cluster->id();
     
     adjustClustersWithDel(pid);
+
+    // The router owns the cluster (its destructor refuses to be called by
+    // anybody else), so free it.
+    m_currently_calling_destructors = true;
+    delete cluster;
+    m_currently_calling_destructors = false;
 }
 
 
